@@ -13,6 +13,7 @@ Mirrors dtlcp/conn.go:
   * `Conn.Write` / `Conn.WriteTo`  application data entry points
 -/
 import Gotlcp.Base.Hex
+import Gotlcp.Model.Replay
 
 namespace Gotlcp.Model.DtlcpTx
 
@@ -106,5 +107,118 @@ def writeTo (k : Consts) (pmtu : Int) (c : Cipher) (b : Bytes) : List Nat :=
 their concatenation to the `PacketConn` as one datagram -/
 def flightDatagrams (k : Consts) (pmtu : Int) (c : Cipher) (msgs : List Bytes) : List Nat :=
   flushDatagrams ((msgs.map fun d => (datagramsDirect k pmtu c d).sum))
+
+/-! ### bytes on the wire and the post-handshake receive step
+
+Record protection is a parameter (`Protect`): what `halfConn.encrypt` appends after the
+13-byte header and what `halfConn.decrypt` recovers.  Its round-trip law is a hypothesis of
+the theorems (`Props.C15.Laws`; `C04_record_roundtrip` is the instance), not part of the model.
+The replay window is the model of `dtlcp/replay.go` (`Gotlcp.Model.Replay`). -/
+
+/-- what identifies a record to `encrypt` / `decrypt` besides the payload: type, version,
+epoch, 48-bit sequence number (MAC header / additional data; the length field is rewritten
+after encryption and is not authenticated) -/
+structure RecId where
+  typ : Nat
+  vers : Nat
+  epoch : Nat
+  seq : Nat
+deriving Repr, DecidableEq
+
+structure Protect where
+  /-- bytes `encrypt` puts after the record header (explicit nonce / IV, ciphertext, tag / MAC + padding) -/
+  protect : RecId → Bytes → Bytes
+  /-- `decrypt`: `none` = bad_record_mac -/
+  unprotect : RecId → Bytes → Option Bytes
+
+/-- big-endian `k` bytes -/
+def beBytes : (k : Nat) → Nat → Bytes
+  | 0, _ => []
+  | k + 1, x => UInt8.ofNat (x / 256 ^ k) :: beBytes k x
+
+def beNat (b : Bytes) : Nat := b.foldl (fun acc x => acc * 256 + x.toNat) 0
+
+/-- the 13-byte DTLCP record header as `writeRecordLocked` fills it -/
+def recordHeader (id : RecId) (len : Nat) : Bytes :=
+  UInt8.ofNat id.typ :: (beBytes 2 id.vers ++ beBytes 2 id.epoch ++ beBytes 6 id.seq ++ beBytes 2 len)
+
+/-- one datagram = one record: header (length = what `encrypt` produced) + protected body -/
+def datagram (P : Protect) (id : RecId) (payload : Bytes) : Bytes :=
+  recordHeader id (P.protect id payload).length ++ P.protect id payload
+
+/-- `writeRecordLocked` on the wire: one datagram per piece, `c.writeSeq++` after each -/
+def txDatagrams (P : Protect) (typ vers epoch : Nat) : (seq : Nat) → List Bytes → List Bytes
+  | _, [] => []
+  | seq, p :: ps => datagram P ⟨typ, vers, epoch, seq⟩ p :: txDatagrams P typ vers epoch (seq + 1) ps
+
+/-- `Conn.WriteTo` / `Conn.Write` as bytes handed to the `PacketConn` -/
+def writeToWire (k : Consts) (P : Protect) (pmtu : Int) (c : Cipher) (vers epoch seq : Nat) (b : Bytes) : List Bytes :=
+  txDatagrams P 23 vers epoch seq (writeRecordPieces k pmtu c b)
+
+structure RxState where
+  readEpoch : Nat
+  win : Replay.Window
+deriving Repr
+
+inductive RxOut where
+  /-- plaintext handed up (`ReadFrom`: `copy(p, plaintext)`; `Read`: becomes `c.readBuf`) -/
+  | data (b : Bytes)
+  /-- the datagram was dropped, the loop reads on -/
+  | skipped
+  /-- close_notify -/
+  | eof
+deriving Repr, DecidableEq
+
+inductive RxPath where
+  /-- `Conn.ReadFrom` -/
+  | readFrom
+  /-- `Conn.Read` → `readRecordOrCCS` (an empty application record is skipped: `len(data) == 0`) -/
+  | read
+deriving Repr, DecidableEq
+
+/-- One datagram through the post-handshake receive loop (`ReadFrom`, or `readRecordOrCCS`
+for an application-data record): length tests, header parse, `decrypt`, epoch test, replay
+window, record type.  `rp`/`cfgWin` are the replay parameters of this tree and
+`Config.ReplayWindow`. -/
+def rxStep (P : Protect) (hdrLen : Nat) (rp : Replay.Params) (cfgWin : Int) (path : RxPath)
+    (st : RxState) (d : Bytes) : RxState × RxOut :=
+  if d.length < hdrLen then (st, .skipped)
+  else
+    let typ := (d.getD 0 0).toNat
+    let vers := beNat ((d.drop 1).take 2)
+    let epoch := beNat ((d.drop 3).take 2)
+    let seq := beNat ((d.drop 5).take 6)
+    let recLen := beNat ((d.drop 11).take 2)
+    if hdrLen + recLen > d.length then (st, .skipped)
+    else
+      match P.unprotect ⟨typ, vers, epoch, seq⟩ ((d.drop hdrLen).take recLen) with
+      | none => (st, .skipped)
+      | some plaintext =>
+        if epoch < st.readEpoch then (st, .skipped)
+        else
+          let st1 : RxState :=
+            if epoch > st.readEpoch then { readEpoch := epoch, win := Replay.newFromConfig rp cfgWin } else st
+          let (w, ok) := Replay.check rp st1.win seq
+          let st2 : RxState := { st1 with win := w }
+          if !ok then (st2, .skipped)
+          else if typ == 23 then
+            if path == RxPath.read && plaintext.isEmpty then (st2, .skipped) else (st2, .data plaintext)
+          else if typ == 21 && plaintext.length == 2 && (plaintext.getD 1 0) == 0 then (st2, .eof)
+          else (st2, .skipped)
+
+/-- a lossless, in-order delivery: every datagram goes through `rxStep`; the outputs -/
+def rxRun (P : Protect) (hdrLen : Nat) (rp : Replay.Params) (cfgWin : Int) (path : RxPath)
+    (st : RxState) : List Bytes → RxState × List RxOut
+  | [] => (st, [])
+  | d :: ds =>
+    let (st1, o) := rxStep P hdrLen rp cfgWin path st d
+    let (st2, os) := rxRun P hdrLen rp cfgWin path st1 ds
+    (st2, o :: os)
+
+/-- the bytes the application receives from a list of outputs -/
+def received : List RxOut → Bytes
+  | [] => []
+  | .data b :: os => b ++ received os
+  | _ :: os => received os
 
 end Gotlcp.Model.DtlcpTx
